@@ -69,9 +69,12 @@ func (f *frame) instr(in ssa.Instruction) {
 	case *ssa.MakeChan:
 		f.allocRef(x)
 	case *ssa.MakeClosure:
-		// closure value: opaque reference; bindings may escape
-		for _, b := range x.Bindings {
-			f.escape(b)
+		// closure value: opaque reference; bindings may escape, unless the closure is only
+		// called or deferred right here (its body is then encoded inline)
+		if !closureLocal(x) {
+			for _, b := range x.Bindings {
+				f.escape(b)
+			}
 		}
 		f.allocRef(x)
 	case *ssa.Lookup:
@@ -121,6 +124,31 @@ func (f *frame) newRef() string {
 
 func (f *frame) allocRef(v ssa.Value) {
 	f.set(v, f.newRef())
+}
+
+// closureLocal: the closure value is used only as the callee of calls and defers of the
+// function that creates it.
+func closureLocal(x *ssa.MakeClosure) bool {
+	crefs := x.Referrers()
+	if crefs == nil {
+		return false
+	}
+	for _, cr := range *crefs {
+		switch y := cr.(type) {
+		case *ssa.Defer:
+			if y.Call.Value != x {
+				return false
+			}
+		case *ssa.Call:
+			if y.Call.Value != x {
+				return false
+			}
+		case *ssa.DebugRef:
+		default:
+			return false
+		}
+	}
+	return true
 }
 
 // allocEscapes: may the address of this allocation (or of a part of it) be observed by
